@@ -269,6 +269,14 @@ def normalizeStringForPostscript(s, allowSpaces=True):
             c = unicodedata.normalize("NFKD", c)
             if not set(c) < _postscriptFontNameAllowed:
                 c = c.encode("ascii", errors="replace").decode()
+            # the decomposition can itself yield characters that are not allowed
+            # (e.g. U+00A0 -> " ", U+207D -> "(", control characters): filter again
+            c = "".join(
+                x
+                for x in c
+                if (x in _postscriptFontNameAllowed or (x == " " and allowSpaces))
+                and x not in _postscriptFontNameExceptions
+            )
         normalized.append(c)
     return "".join(normalized)
 
